@@ -29,7 +29,26 @@ class Atoms:
         self.bool_summaries = bool_summaries or {}   # local function name -> formula
         self.tokens = tokens or {}                   # name -> string constant (IS_elected = 'elected')
 
+    def _res(self, e):
+        """a local with a single definition stands for that definition (`seatsLeft = E.seatsLeftToFill()`; `remaining = C.hopeful()`) -
+        only for the side-effect-free expressions this fact domain reads"""
+        seen = 0
+        while isinstance(e, ast.Name) and seen < 3:
+            defs = self.func.assigns().get(e.id) if hasattr(self.func, 'assigns') else None
+            if not defs or len(defs) != 1 or not isinstance(defs[0][0], ast.Call):
+                break
+            v = defs[0][0]
+            kind = call_name(v)
+            ok = (kind[0] == 'attr' and self.ctx.canon(kind[1], self.func) == 'E.C') or self.ctx.canon(v.func, self.func) == 'E.seatsLeftToFill' \
+                or (isinstance(v.func, ast.Name) and v.func.id == 'len' and len(v.args) == 1)
+            if not ok:
+                break
+            e = v
+            seen += 1
+        return e
+
     def _is_sel(self, e, sel):
+        e = self._res(e)
         if isinstance(e, ast.Call):
             kind, recv, nm = call_name(e)
             if kind == 'attr' and nm == sel and self.ctx.canon(recv, self.func) == 'E.C':
@@ -37,10 +56,12 @@ class Atoms:
         return False
 
     def _len_sel(self, e, sel):
+        e = self._res(e)
         return (isinstance(e, ast.Call) and isinstance(e.func, ast.Name) and e.func.id == 'len'
                 and len(e.args) == 1 and self._is_sel(e.args[0], sel))
 
     def _is_seats_left(self, e):
+        e = self._res(e)
         return isinstance(e, ast.Call) and self.ctx.canon(e.func, self.func) == 'E.seatsLeftToFill' \
             and not e.args
 
@@ -250,6 +271,9 @@ def bool_summary(ctx, func, atoms):
             return None
         st = stmts[0]
         if isinstance(st, ast.Expr) and isinstance(st.value, ast.Constant):
+            return walk(stmts[1:])
+        if isinstance(st, ast.Assign) and len(st.targets) == 1 and isinstance(st.targets[0], ast.Name):
+            # a local naming a sub-expression (`seatsLeft = E.seatsLeftToFill()`): Atoms._res reads through it
             return walk(stmts[1:])
         if isinstance(st, ast.Return):
             if st.value is None:
